@@ -590,14 +590,18 @@ Proof.
   intros Hwf Hroot Hfm H. unfold run_request in H.
   assert (Hret : forall r0, ret (r0, fm) = ((r, fm'), log) -> contained c log = true /\ fm_ok c fm').
   { intros r0 E. unfold ret in E. injection E as <- <- <-. split; [reflexivity|assumption]. }
-  (* goals that remain after the default mounting (request.subpath given) is solved: 0, 5, 4, 2, 1 *)
-  destruct (c_mount c) as [|[[q|[q|q|]|]|[q|[q|q|]|]|]]; try (eapply serve_contained_fs; eassumption).
+  (* goals that remain after the default mounting (request.subpath given) is solved: 0, 5, 6, 4, 2, 1 *)
+  destruct (c_mount c) as [|[[q|[q|q|]|]|[[q|q|]|[q|q|]|]|]]; try (eapply serve_contained_fs; eassumption).
   - destruct (decode (unquote (r_raw rq))) as [p0|]; [|eapply Hret; eassumption].
     destruct (route_match _ _) as [rest|]; [|eapply Hret; eassumption].
     destruct static_use_subpath; [eapply serve_contained_fs|eapply serve_path_info_contained_fs]; eassumption.
   - cbv iota in H. destruct (decode (unquote (r_raw rq))) as [p0|]; [|eapply Hret; eassumption].
-    destruct (split_path_info_f _) as [|seg rest]; [eapply Hret; eassumption|].
+    destruct (vroot_tuple c) as [r0|vt]; [eapply Hret; eassumption|].
+    destruct (vt ++ split_path_info_f _) as [|seg rest]; [eapply Hret; eassumption|].
     destruct (text_eqb _ _); [eapply serve_contained_fs; eassumption|eapply Hret; eassumption].
+  - cbv iota in H. destruct (decode (unquote (r_raw rq))) as [p0|]; [|eapply Hret; eassumption].
+    destruct (route_match_seg _ _) as [rest|]; [|eapply Hret; eassumption].
+    destruct (traverser_tuple rest) as [r0|t]; [eapply Hret; eassumption|eapply serve_contained_fs; eassumption].
   - cbv iota in H. destruct (decode (unquote (r_raw rq))) as [p0|]; [|eapply Hret; eassumption].
     destruct (route_match_ph _ _) as [rest|]; [|eapply Hret; eassumption].
     destruct (traverser_tuple rest) as [r0|t]; [eapply Hret; eassumption|eapply serve_contained_fs; eassumption].
@@ -772,7 +776,7 @@ Proof. intros H Hin. apply memN_In in Hin. congruence. Qed.
 
 (* root "/r" holding f (3 bytes) and f.g (1 byte, encoding "g"); "/s" lies outside *)
 Definition ex_cfg (mount : N) (docroot : text) : config :=
-  mkConfig mount [115] false docroot [] [105] [[103]] [([46; 103], [103])] [104] [47] false.
+  mkConfig mount [115] false docroot [] [105] [[103]] [([46; 103], [103])] [104] [47] false None.
 Definition ex_fs : fsys :=
   [ ([[114]], EDir 0); ([[114]; [102]], EFile 3 [1; 2; 3]); ([[114]; [102; 46; 103]], EFile 1 [9]);
     ([[115]], EFile 2 [7; 7]) ].
